@@ -341,8 +341,30 @@ def check(dump, build, factor_budget_s=20):
             if pow(g, t, m) != w:
                 bad(f"{fname}::TWO_ADIC_ROOT_OF_UNITY", "is not MULTIPLICATIVE_GENERATOR^TRACE (the arkworks convention FftField documents)", hex(w), hex(pow(g, t, m)))
         satisfies(f"{fname}::QUADRATIC_NON_RESIDUE_TO_TRACE", order_2s, "a non-residue raised to the trace generates the 2-Sylow subgroup (order exactly 2^s)")
-        for nm in ("FftField::SMALL_SUBGROUP_BASE", "FftField::SMALL_SUBGROUP_BASE_ADICITY", "FftField::LARGE_SUBGROUP_ROOT_OF_UNITY"):
-            equals(f"{fname} {nm}", None, transform=lambda v: v)
+        for k in list(C.keys()):
+            if k.startswith(f"{fname} type-path "):
+                checks.append((k, "equals"))
+                if C[k] is not True:
+                    bad(k, "the constant reached through the type path (an inherent constant shadows the trait constant) differs from the trait constant")
+        # optional mixed-radix FFT constants: either all absent, or a consistent triple: base b prime,
+        # b^k | m-1, root = GENERATOR^((m-1)/(2^s b^k)) of exact order 2^s b^k (the FftField documentation)
+        trip = [C.get(f"{fname} FftField::{x}", "absent") for x in ("SMALL_SUBGROUP_BASE", "SMALL_SUBGROUP_BASE_ADICITY", "LARGE_SUBGROUP_ROOT_OF_UNITY")]
+        if "absent" not in trip:
+            nm3 = f"{fname} FftField::LARGE_SUBGROUP_ROOT_OF_UNITY"
+            checks.append((nm3, "satisfies"))
+            sb, sk, sw = trip
+            if (sb is None) != (sk is None) or (sb is None) != (sw is None):
+                bad(nm3, "SMALL_SUBGROUP_BASE, SMALL_SUBGROUP_BASE_ADICITY and LARGE_SUBGROUP_ROOT_OF_UNITY must be all None or all Some", str(trip))
+            elif sb is not None:
+                bb_, kk_, ww_ = int(sb), int(sk), I(sw)
+                big = (2 ** s) * (bb_ ** kk_)
+                gname = f"{fname} FftField::GENERATOR"
+                if not is_prime(bb_) or bb_ == 2 or kk_ < 1 or (m - 1) % big != 0:
+                    bad(nm3, f"small subgroup {bb_}^{kk_} is not a prime power dividing (m-1)/2^s", str(trip))
+                elif pow(ww_, big, m) != 1 or pow(ww_, big // 2, m) == 1 or pow(ww_, big // bb_, m) == 1:
+                    bad(nm3, f"does not have exact order 2^{s} * {bb_}^{kk_}", hex(ww_))
+                elif gname in C and pow(I(C[gname]), (m - 1) // big, m) != ww_:
+                    bad(nm3, "is not GENERATOR^((m-1)/(2^s b^k)) (the convention FftField documents)", hex(ww_), hex(pow(I(C[gname]), (m - 1) // big, m)))
         nm = f"{fname} Field::SQRT_PRECOMP"
         if nm in C:
             checks.append((nm, "satisfies"))
